@@ -489,6 +489,8 @@ class Interp:
                 return self.cmp_values("==" if last == "eq" else "!=", args[0], args[1])
             if name == "<bool as std::default::Default>::default":
                 return False
+            if last == "clone" and len(args) == 1 and (name.startswith("std::clone::") or "as std::clone::Clone>" in name):
+                return args[0]
             tb = self.prog.bodies.get(name)
             if tb is not None and tb.kind in ("Fn", "AssocFn") and len(tb.params) == len(args):
                 return self.call(tb, args)
@@ -640,7 +642,7 @@ def edge_set(prog, interp, pred_body, trait):
     return out
 
 
-@RULES.rule("R8.1", "derive rule tables, limits and the CanDerive lattice agree with the oracle", floor=175)
+@RULES.rule("R8.1", "derive rule tables, limits and the CanDerive lattice agree with the oracle", floor=166)
 def r8_1(rep):
     """Every `DeriveTrait::can_derive_*` predicate is evaluated for every DeriveTrait variant (can_derive_simple for every
     simple TypeKind, can_derive_fnptr for both answers of function_pointers_can_derive) and compared with
@@ -845,7 +847,7 @@ def has_all(atoms, req):
     return all(any(s in a and p == pol for a, p, _ in atoms) for s, pol in req)
 
 
-@RULES.rule("R8.5", "constrain_type applies each table to the kind it is about, with the right polarity, and joins over members", floor=38)
+@RULES.rule("R8.5", "constrain_type applies each table to the kind it is about, with the right polarity, and joins over members", floor=43)
 def r8_5(rep):
     """The tables of R8.1 only matter through their use sites.  Routing: every TypeKind is decided by the rule family
     the oracle names (a `Reference` moved into the type-reference join would make Default follow the pointee).  Polarity:
@@ -1014,8 +1016,7 @@ def r8_2(rep):
     by_trait = {}
     for f, (g, tr, b, n) in sorted(res.items()):
         if g == "CannotDerive":
-            rep.check(tr is not None and tr.lower() in f.replace("_", "") + "partialeqorpartialord" and
-                      (f.replace("cannot_derive_", "").replace("_", "") == tr.lower()),
+            rep.check(tr is not None and f.replace("cannot_derive_", "").replace("_", "") == tr.lower(),
                       "wire:compute:" + f, "`%s` holds the CannotDerive analysis of DeriveTrait::%s" % (f, tr), b.loc(n))
             by_trait.setdefault(tr, []).append(f)
         elif g == "HasFloat":
@@ -1114,24 +1115,123 @@ def r8_2(rep):
 UNWRAPS = ("unwrap", "expect", "unwrap_unchecked")
 
 
-def atom_key(b, a, x):
-    """canonical, body-independent key of a guard atom: option fields become `opt:<field>`"""
-    of = opt_field(x) if isinstance(x, dict) else None
-    return "opt:" + of if of else "x:" + a
+# formulas in negation normal form: ("lit", key, polarity) | ("and", [f..]) | ("or", [f..]);  TRUE = ("and", [])
+TRUE = ("and", [])
 
 
-def guard_literals(b, node):
-    """[(key, polarity)] of the guard chain of node; atoms that come from assertion macros are dropped (a failed
-    assertion panics, it does not silently skip)"""
+def f_and(fs):
     out = []
-    for a, p, x in qq.guard_atoms(b, node):
-        if isinstance(x, dict) and x.get("k") and b.macro_name(x) in ASSERT_MACROS:
+    for f in fs:
+        if f[0] == "and":
+            out += f[1]
+        else:
+            out.append(f)
+    return out[0] if len(out) == 1 else ("and", out)
+
+
+def f_or(fs):
+    out = []
+    for f in fs:
+        if f[0] == "or":
+            out += f[1]
+        else:
+            out.append(f)
+    return out[0] if len(out) == 1 else ("or", out)
+
+
+def formula_of(b, e, pol=True):
+    """boolean expression -> NNF formula; option fields become `opt:<field>`, every other atom `x:<canonical text>`;
+    immutable bool locals are expanded"""
+    e = strip(e)
+    k = e.get("k")
+    if k == "Unary" and e["op"] == "!":
+        return formula_of(b, e["e"], not pol)
+    if k == "Binary" and e["op"] in ("&&", "||"):
+        parts = [formula_of(b, e["l"], pol), formula_of(b, e["r"], pol)]
+        return f_and(parts) if (e["op"] == "&&") == pol else f_or(parts)
+    if k == "Local":
+        init = b.local_init(e["id"])
+        if init is not None and b.ty(e) == "bool":
+            return formula_of(b, init, pol)
+    if k == "Lit" and isinstance(e.get("v"), bool):
+        return TRUE if e["v"] == pol else ("or", [])
+    of = opt_field(e)
+    return ("lit", "opt:" + of if of else "x:" + b.canon(e, 6), pol)
+
+
+def guard_formula(b, node):
+    """conjunction of the guard chain of node.  Conditions that come from assertion macros are dropped (a failed assertion
+    panics, it does not silently skip); match arms / let-else become opaque `x:` atoms."""
+    fs = []
+    for pol, kind, g in b.guards(node):
+        if kind == "cond":
+            if b.macro_name(g) in ASSERT_MACROS or b.macro_name(g) in LOG_MACROS:
+                continue
+            fs.append(formula_of(b, g, pol))
+        elif kind == "arm":
+            m, i = g
+            fs.append(("lit", "x:arm:%s:%d" % (b.canon(m["scrut"], 4), i), True))
+        elif kind == "letelse":
+            fs.append(("lit", "x:letelse:" + b.canon(g.get("init", {}), 4), True))
+    return f_and(fs) if fs else TRUE
+
+
+def f_atoms(f, acc=None):
+    acc = set() if acc is None else acc
+    if f[0] == "lit":
+        acc.add(f[1])
+    else:
+        for g in f[1]:
+            f_atoms(g, acc)
+    return acc
+
+
+def f_eval(f, w):
+    if f[0] == "lit":
+        return w[f[1]] == f[2]
+    if f[0] == "and":
+        return all(f_eval(g, w) for g in f[1])
+    return any(f_eval(g, w) for g in f[1])
+
+
+def f_rename(f, pre):
+    """rename the non-option atoms (they mean something only inside the body they come from)"""
+    if f[0] == "lit":
+        return f if f[1].startswith("opt:") else ("lit", pre + f[1], f[2])
+    return (f[0], [f_rename(g, pre) for g in f[1]])
+
+
+def f_options_only(f):
+    """weaken an NNF formula to its option atoms (every other literal becomes true)"""
+    if f[0] == "lit":
+        return f if f[1].startswith("opt:") else TRUE
+    parts = [f_options_only(g) for g in f[1]]
+    if f[0] == "or" and any(p == TRUE for p in parts):
+        return TRUE
+    return f_and(parts) if f[0] == "and" else f_or(parts)
+
+
+def f_str(f):
+    if f[0] == "lit":
+        return ("" if f[2] else "!") + (f[1][4:] if f[1].startswith("opt:") else f[1][2:60])
+    if not f[1]:
+        return "true" if f[0] == "and" else "false"
+    return "(" + (" && " if f[0] == "and" else " || ").join(f_str(g) for g in f[1]) + ")"
+
+
+def entails(g, c, implications=()):
+    """g => c for every valuation of the atoms that respects `implications` (pairs (a, b): opt a => opt b).  The
+    non-option atoms of c are independent of those of g (rename before calling when they come from different bodies)."""
+    atoms = sorted(f_atoms(g) | f_atoms(c) | {"opt:" + x for ab in implications for x in ab})
+    if len(atoms) > 16:
+        return False
+    for vals in itertools.product((False, True), repeat=len(atoms)):
+        w = dict(zip(atoms, vals))
+        if any(w["opt:" + a] and not w["opt:" + b] for a, b in implications):
             continue
-        if a.startswith(("arm:", "letelse:")):
-            out.append(("x:" + a, p))
-            continue
-        out.append((atom_key(b, a, x), p))
-    return out
+        if f_eval(g, w) and not f_eval(c, w):
+            return False
+    return True
 
 
 def call_index(prog):
@@ -1149,11 +1249,11 @@ def call_index(prog):
 
 
 def conditional_results(prog, adt):
-    """Option-typed fields of `adt` that some method fills with `Some(..)`.
+    """Option-typed fields of `adt` that some function fills with `Some(..)`.
 
-    -> {field: {"dnf": [[(key, pol), ..], ..], "sites": [(body, assign node)], "unconditional": bool}}
-    The condition of a site is its own guard chain conjoined with the guard chain of each call of the assigning method
-    (one level: `compute_x` is called from `gen`)."""
+    -> {field: {"cond": formula, "sites": [(body, assign node)], "unconditional": bool}}
+    The condition of a site is its own guard chain conjoined with the disjunction of the guard chains of the calls of
+    the assigning function (one level: `compute_x` is called from `gen`)."""
     a = prog.adts.get(adt)
     if not a:
         return {}
@@ -1170,39 +1270,17 @@ def conditional_results(prog, adt):
             r = strip(n["r"])
             if not (r.get("k") == "Call" and short(r.get("ctor", "")) == "Some"):
                 continue
-            own = guard_literals(b, n)
+            own = f_rename(guard_formula(b, n), "c:")
             callers = idx.get(b.path, [])
-            conjs = [own + guard_literals(kb, kc) for kb, kc in callers] or [own]
-            ent = out.setdefault(l["f"], {"dnf": [], "sites": []})
-            ent["dnf"] += conjs
+            if callers:
+                own = f_and([own, f_or([f_rename(guard_formula(kb, kc), "c:") for kb, kc in callers])])
+            ent = out.setdefault(l["f"], {"parts": [], "sites": []})
+            ent["parts"].append(own)
             ent["sites"].append((b, n))
     for f, ent in out.items():
-        ent["unconditional"] = any(not c for c in ent["dnf"])
+        ent["cond"] = f_or(ent.pop("parts"))
+        ent["unconditional"] = entails(TRUE, ent["cond"])
     return out
-
-
-def entails(lits, dnf, implications=()):
-    """does the conjunction `lits` imply the DNF, for every valuation of the option atoms that respects `implications`
-    (pairs (a, b) meaning opt a => opt b)?  Non-option atoms of the DNF count only if the same literal is in `lits`."""
-    have = set(lits)
-    opts = sorted({k for k, _ in lits if k.startswith("opt:")} | {k for c in dnf for k, _ in c if k.startswith("opt:")} |
-                  {"opt:" + x for ab in implications for x in ab})
-    if len(opts) > 14:
-        return False
-    for vals in itertools.product((False, True), repeat=len(opts)):
-        w = dict(zip(opts, vals))
-        if any(w["opt:" + a] and not w["opt:" + b] for a, b in implications):
-            continue
-        if not all(w[k] == p for k, p in lits if k in w):
-            continue
-        sat = False
-        for c in dnf:
-            if all((w[k] == p) if k in w else ((k, p) in have) for k, p in c):
-                sat = True
-                break
-        if not sat:
-            return False
-    return True
 
 
 _INV_CACHE = {}
@@ -1277,54 +1355,48 @@ def check_guarded_unwraps(rep, adt, prefix="unwrap", only_fields=None, max_depth
     """For every `self.<F>.unwrap()/expect()` of a conditionally computed Option field F of `adt`: the guard chain of the
     unwrap — extended through the callers of the enclosing function as long as necessary — implies the condition
     under which F is computed (modulo verified invariants between option flags).
-    Emits one instance per unwrap site (`<prefix>:<F>@<fn>`) plus `computed:<F>` and `invariant:<a>=><b>`."""
+    Emits one instance per unwrap site (`<prefix>:<F>@<fn>`) plus `computed:<F>` and `invariant:<a>=><b>`; returns the
+    number of unwrap sites."""
     prog = rep.prog
     res = conditional_results(prog, adt)
     idx = call_index(prog)
     used_inv = {}
 
-    def prove(lits, dnf):
-        if entails(lits, dnf):
+    def prove(g, c):
+        if entails(g, c):
             return True
-        pos = [k[4:] for k, p in lits if k.startswith("opt:") and p]
-        tgt = sorted({k[4:] for c in dnf for k, p in c if k.startswith("opt:") and p})
-        impl = []
-        for a in pos:
-            for b in tgt:
-                if a != b:
-                    ok, why = option_invariant(prog, a, b)
-                    if ok:
-                        impl.append((a, b))
-        if impl and entails(lits, dnf, impl):
+        opts_g = sorted(k[4:] for k in f_atoms(g) if k.startswith("opt:"))
+        opts_c = sorted(k[4:] for k in f_atoms(c) if k.startswith("opt:"))
+        impl = [(a, b) for a in opts_g for b in opts_c if a != b and option_invariant(prog, a, b)[0]]
+        if impl and entails(g, c, impl):
             for ab in impl:
-                if not entails(lits, dnf, [x for x in impl if x != ab]):
+                if not entails(g, c, [x for x in impl if x != ab]):
                     used_inv[ab] = option_invariant(prog, *ab)[1]
             return True
         return False
 
-    def obligation(b, node, lits, dnf, depth, seen):
-        """-> list of (ok, description, loc) leaves"""
-        lits = lits + guard_literals(b, node)
-        if prove(lits, dnf):
-            return [(True, "guarded in %s by %s" % (short(b.path), [("" if p else "!") + k for k, p in lits if k.startswith("opt:")]), b.loc(node))]
-        callers = idx.get(b.path, [])
+    def obligation(b, node, carried, c, depth, seen):
+        """-> leaves [(ok, description, loc)]"""
+        g = f_and([carried, guard_formula(b, node)])
+        if prove(g, c):
+            return [(True, "guarded by %s in %s" % (f_str(f_options_only(g)), short(b.path)), b.loc(node))]
+        callers = list(idx.get(b.path, []))
         ti = b.fact.get("trait_item")
         if ti:
-            callers = callers + [c for c in idx.get(ti, []) if c not in callers]
+            callers += [x for x in idx.get(ti, []) if x not in callers]
         if depth <= 0 or not callers or b.path in seen:
-            return [(False, "reached in %s under %s only" % (b.path, [("" if p else "!") + k for k, p in lits if k.startswith("opt:")] or "no option guard"),
-                     b.loc(node))]
+            return [(False, "reached in %s under %s only" % (b.path, f_str(f_options_only(g))), b.loc(node))]
         out = []
-        keep = [(k, p) for k, p in lits if k.startswith("opt:")]
+        keep = f_options_only(g)
         for kb, kc in callers:
-            out += obligation(kb, kc, keep, dnf, depth - 1, seen | {b.path})
+            out += obligation(kb, kc, keep, c, depth - 1, seen | {b.path})
         return out
 
     n_sites = 0
     for f, ent in sorted(res.items()):
         if only_fields is not None and f not in only_fields:
             continue
-        cond = " || ".join(" && ".join(("" if p else "!") + k for k, p in c) or "true" for c in ent["dnf"])
+        cond = f_str(ent["cond"])
         rep.ok("computed:" + f, "`%s` is filled %s" % (f, "unconditionally" if ent["unconditional"] else "only when " + cond),
                ent["sites"][0][0].loc(ent["sites"][0][1]))
         for b in prog.bodies.values():
@@ -1337,7 +1409,7 @@ def check_guarded_unwraps(rep, adt, prefix="unwrap", only_fields=None, max_depth
                         if ent["unconditional"]:
                             rep.ok(key, "always computed", b.loc(n))
                             continue
-                        leaves = obligation(b, n, [], ent["dnf"], max_depth, frozenset())
+                        leaves = obligation(b, n, TRUE, ent["cond"], max_depth, frozenset())
                         bad = [l for l in leaves if not l[0]]
                         if bad:
                             rep.bad(key, "`%s` is computed only when %s, but its unwrap is %s" % (f, cond, bad[0][1]), bad[0][2])
@@ -1348,7 +1420,7 @@ def check_guarded_unwraps(rep, adt, prefix="unwrap", only_fields=None, max_depth
     return n_sites
 
 
-@RULES.rule("R8.3", "a conditionally computed analysis result is only unwrapped under a guard that implies its condition", floor=22)
+@RULES.rule("R8.3", "a conditionally computed analysis result is only unwrapped under a guard that implies its condition", floor=32)
 def r8_3(rep):
     """`compute_cannot_derive_hash` fills `cannot_derive_hash` only under `options.derive_hash`; `lookup_can_derive_hash`
     unwraps it.  Every path to the unwrap must carry a guard that implies the filling condition, otherwise bindgen
@@ -1358,3 +1430,466 @@ def r8_3(rep):
     that every Builder setter preserves them."""
     n = check_guarded_unwraps(rep, CTX)
     rep.check(n >= 10, "unwrap-sites", "%d unwrap sites of computed results" % n)
+
+
+# =====================================================================================================
+#  R8.4  derives_of_item, forward declarations, and the hand-written impls
+# =====================================================================================================
+DTR = "codegen::DerivableTraits::"
+FIELD = "ir::comp::Field"
+
+
+def flag_sites(b):
+    """(flag name, node) for every place a DerivableTraits bit is added to a set: `x |= F`, `x.insert(F | ..)`"""
+    out = []
+    for n in b.walk():
+        src = None
+        if n["k"] == "AssignOp" and n["op"] == "|=":
+            src = n["r"]
+        elif n["k"] == "MCall" and n["name"] in ("insert", "set", "union") and n["args"]:
+            src = n["args"][0]
+        if src is None:
+            continue
+        for x in b.walk(src):
+            if x["k"] == "Path" and x["def"].startswith(DTR):
+                out.append((x["def"][len(DTR):], n))
+    return out
+
+
+def seq_in(tokens, *seq):
+    n = len(seq)
+    return any(tuple(tokens[i:i + n]) == tuple(seq) for i in range(len(tokens) - n + 1))
+
+
+def member_accesses(b, q):
+    """[(owner 'self'|'other', token, origin)] for every `self . X` / `other . X` in a quote site; origin = canonical
+    definition of the interpolated local when X is `#x`, None for a literal field name"""
+    ip = q.interps()
+    out = []
+    t = q.tokens
+    for i in range(len(t) - 2):
+        if t[i] in ("self", "other") and t[i + 1] == "." and (i == 0 or t[i - 1] != "."):
+            x = t[i + 2]
+            origin = None
+            if x.startswith("#") and len(x) > 1:
+                loc = ip.get(x[1:])
+                origin = b.canon(loc, 6) if loc is not None else "?"
+            out.append((t[i], x, origin))
+    return out
+
+
+def relative_guards(b, inner, outer):
+    """guards of `inner` that are not already guards of `outer` (outer encloses inner)"""
+    go = b.guards(outer)
+    gi = b.guards(inner)
+    return gi[len(go):] if gi[:len(go)] == go else gi
+
+
+BITFIELD_NAMED = re.compile(r"^(std::option::Option::<T>::is_some\(|let std::prelude::v1::Some\(\w+\) = )<ir::comp::Bitfield as ir::comp::FieldMethods>::name\(")
+
+
+def conds_text(b, gs):
+    return [("" if pol else "!") + b.canon(g, 4) for pol, kind, g in gs if kind == "cond"]
+
+
+@RULES.rule("R8.4", "derives_of_item, forward declarations and the hand-written Default/Clone/Debug/PartialEq impls", floor=74)
+def r8_4(rep):
+    """Structure of `derives_of_item` (each DerivableTraits bit is set only under the matching CanDerive* answer and
+    the per-item annotation; a packed type that is not Copy derives nothing at all — `#[derive(Debug)]` on a
+    `#[repr(packed)]` non-Copy struct is error E0133/E0793), of the forward-declaration branch (only Debug), and of the
+    manual impls: Default zero-fills the whole object including padding through `ptr::write_bytes(p, 0, 1)` on a
+    `MaybeUninit<Self>`; `gen_partialeq_impl` contributes a comparison for every base, every data member and every
+    named bit-field and joins them with `&&` (forgetting the `Field::Bitfields` arm makes two objects that differ
+    only in a bit-field compare equal); both sides of every `==` name the same member; a manual impl is generated only
+    when its options are on and the derive is impossible."""
+    prog = rep.prog
+    doi = rep.need(prog.fn("codegen::derives_of_item"), "codegen::derives_of_item")
+    ci = rep.need(prog.impl_fn("codegen::CodeGenerator", "ir::comp::CompInfo", "codegen"), "<CompInfo as CodeGenerator>::codegen")
+    spec = {k: v for k, v in ORACLE["derive_flags"].items() if not k.startswith("_")}
+
+    # ---- A. derives_of_item ---------------------------------------------------------------------------
+    sites = flag_sites(doi)
+    rep.need(sites, "DerivableTraits bits set in derives_of_item")
+    seen = set()
+    for flag, n in sites:
+        seen.add(flag)
+        if flag not in spec:
+            rep.bad("flag:" + flag, "DerivableTraits::%s is unknown to the oracle" % flag, doi.loc(n))
+            continue
+        atoms = qq.guard_atoms(doi, n)
+        need = "ir::derive::CanDerive%s>::can_derive_%s(" % (spec[flag]["needs"], spec[flag]["needs"].lower())
+        ok = qq.has_atom(atoms, need, True)
+        ann = spec[flag].get("annotation")
+        ok_ann = ann is None or qq.has_atom(atoms, "Annotations::" + ann, False)
+        rep.check(ok and ok_ann, "flag:" + flag, "DerivableTraits::%s is set only when can_derive_%s%s (guards: %s)" %
+                  (flag, spec[flag]["needs"].lower(), " and not " + ann if ann else "", [("" if p else "!") + short(a.split("(")[0]) for a, p, _ in atoms]),
+                  doi.loc(n))
+    for flag in sorted(set(spec) - seen):
+        rep.bad("flag:" + flag, "DerivableTraits::%s is never set by derives_of_item: the trait is withheld from every type" % flag, doi.loc(doi.root))
+    # packed types that are not Copy derive nothing
+    packed_param = doi.params[2]["name"] if len(doi.params) > 2 and doi.params[2].get("k") == "Bind" else "packed"
+    rets = [n for n in doi.walk() if n["k"] == "Ret"]
+    early = [r for r in rets if qq.has_atom(qq.guard_atoms(doi, r), "param:" + packed_param, True) and
+             qq.has_atom(qq.guard_atoms(doi, r), "CanDeriveCopy>::can_derive_copy(", False)]
+    if rep.check(len(early) == 1, "packed:early-return", "derives_of_item returns early for `packed && !can_derive_copy` (%d such return(s))" % len(early),
+                 doi.loc(doi.root)):
+        r = early[0]
+        ri = toplevel_index(doi, r)
+        before = [(f, n) for f, n in sites if toplevel_index(doi, n) <= ri]
+        after = [(f, n) for f, n in sites if toplevel_index(doi, n) > ri]
+        ok_before = all(f in ("COPY", "CLONE") and qq.has_atom(qq.guard_atoms(doi, n), "CanDeriveCopy>::can_derive_copy(", True) for f, n in before)
+        rep.check(ok_before and {f for f, _ in after} == set(spec) - {"COPY", "CLONE"}, "packed:nothing-else",
+                  "every bit other than COPY/CLONE is set after the early return (before: %s)" % sorted(f for f, _ in before), doi.loc(r))
+        e = strip(r["e"]) if isinstance(r.get("e"), dict) else {}
+        val = doi.canon(e, 3)
+        if e.get("k") == "Local" and doi.local_def.get(e["id"], [("",)])[0][0] == "let":
+            # the accumulator itself: nothing has been added to it on this path (checked above) and it starts empty
+            accs = {strip(n["l"]).get("id") for _, n in sites if n["k"] == "AssignOp"}
+            init = doi.local_def[e["id"]][0][1].get("init")
+            val = doi.canon(init, 3) if init is not None and e["id"] in accs else val
+        rep.check(val.endswith("::empty()"), "packed:returns-empty", "the early return yields the empty set (%s)" % val[:70], doi.loc(r))
+
+    # ---- B. callers: forward declarations, packedness ----------------------------------------------------
+    calls = [c for c in ci.calls(lambda x: x["k"] == "Call" and x.get("callee") == doi.path)]
+    rep.need(calls, "call of derives_of_item in CompInfo::codegen")
+    for c in calls:
+        rep.check(qq.has_atom(qq.guard_atoms(ci, c), "CompInfo::is_forward_declaration", False), "forward-decl:not-derives_of_item",
+                  "derives_of_item is consulted only for complete types", ci.loc(c))
+        parg = strip(c["args"][2]) if len(c["args"]) > 2 else {}
+        reprs = [x for x in ci.calls(lambda x: short(callee_of(x)) == "repr_list") if any(
+            y["k"] == "Lit" and isinstance(y.get("v"), str) and "packed" in y["v"] for y in ci.walk(ci.parent[x["_i"]]))]
+        reprs = reprs or [x for x in ci.calls(lambda x: short(callee_of(x)) == "repr_list")]
+        same = parg.get("k") == "Local" and reprs and all(
+            any(isinstance(g, dict) and strip(g).get("k") == "Local" and strip(g)["id"] == parg["id"] and p for _, p, g in qq.guard_atoms(ci, x)) for x in reprs)
+        rep.check(bool(same), "packed:same-flag", "`#[repr(packed)]` is emitted only under the flag that is handed to derives_of_item", ci.loc(c))
+    fwd = [(f, n) for f, n in flag_sites(ci) if qq.has_atom(qq.guard_atoms(ci, n), "CompInfo::is_forward_declaration", True)]
+    rep.check(bool(fwd) and {f for f, _ in fwd} == {"DEBUG"}, "forward-decl:only-debug",
+              "a forward declaration derives at most Debug (bits set: %s)" % sorted({f for f, _ in fwd}), ci.loc(fwd[0][1]) if fwd else ci.loc(ci.root))
+    for f, n in fwd:
+        rep.check(qq.has_atom(qq.guard_atoms(ci, n), "Annotations::disallow_debug", False), "forward-decl:nodebug",
+                  "... and not when annotated nodebug", ci.loc(n))
+
+    # ---- C. manual impls: when -----------------------------------------------------------------------------
+    qs = qq.quote_sites(ci)
+    impl_sites = {}
+    for q in qs:
+        t = q.tokens
+        if t[:1] == ["impl"] and "for" in t:
+            tr = t[t.index("for") - 1]
+            impl_sites[tr] = q
+    manual = {k: v for k, v in ORACLE["manual_impls"].items() if not k.startswith("_")}
+    flagname = {"Debug": "DEBUG", "PartialEq": "PARTIAL_EQ", "Default": "DEFAULT"}
+    for tr, m in sorted(manual.items()):
+        q = impl_sites.get(tr)
+        if q is None:
+            rep.bad("manual:%s:site" % tr, "no `impl .. %s for ..` emission in CompInfo::codegen" % tr, ci.loc(ci.root))
+            continue
+        locals_ = [g for a, p, g in qq.guard_atoms(ci, q.root) if p and isinstance(g, dict) and strip(g).get("k") == "Local" and
+                   ci.ty(strip(g)) == "bool"]
+        if not rep.check(len(locals_) == 1, "manual:%s:site" % tr, "the impl is emitted under one boolean (%s)" %
+                         [strip(g)["name"] for g in locals_], q.loc()):
+            continue
+        lid = strip(locals_[0])["id"]
+        init = ci.local_def[lid][0][1].get("init") if ci.local_def[lid][0][0] == "let" else None
+        asg = [n for n in ci.walk() if n["k"] == "Assign" and strip(n["l"]).get("k") == "Local" and strip(n["l"])["id"] == lid]
+        starts_false = init is not None and strip(init).get("v") is False
+        if not rep.check(starts_false and len(asg) == 1, "manual:%s:flag" % tr, "the boolean starts false and is decided once (%d assignment(s))" % len(asg),
+                         q.loc()):
+            continue
+        a = asg[0]
+        atoms = atoms_of(ci, a["r"]) + qq.guard_atoms(ci, a)
+        for o in m["options"]:
+            rep.check(any(opt_field(x) == o and p for _, p, x in atoms if isinstance(x, dict)), "manual:%s:option:%s" % (tr, o),
+                      "impl %s requires `%s`" % (tr, o), ci.loc(a))
+        for e in m["excluded_by"]:
+            rep.check(qq.has_atom(atoms, e, False), "manual:%s:not:%s" % (tr, e), "impl %s is not written when %s" % (tr, e), ci.loc(a))
+        rep.check(any("DerivableTraits>::contains(" in s and DTR + flagname[tr] in s and not p for s, p, _ in atoms) or
+                  any("contains(" in s and not p and flagname[tr] in ci.canon(x, 8) for s, p, x in atoms if isinstance(x, dict)),
+                  "manual:%s:only-if-not-derived" % tr, "impl %s is written only when %s is not derived" % (tr, tr), ci.loc(a))
+        if m["requires_manually"]:
+            rep.check(qq.has_atom(atoms, CD + "::Manually", True), "manual:%s:only-if-manually" % tr,
+                      "impl %s is written only when the analysis answered Manually (a `No` means a constituent that cannot "
+                      "support %s, which a hand-written impl would have to touch as well)" % (tr, tr), ci.loc(a))
+    # Clone rides on Copy
+    q = impl_sites.get("Clone")
+    if rep.check(q is not None, "manual:Clone:site", "`impl Clone` emission exists", ci.loc(ci.root)):
+        rep.check(seq_in(q.tokens, "{", "*", "self", "}"), "manual:Clone:body", "clone() is `*self`", q.loc())
+        locals_ = [strip(g)["id"] for a, p, g in qq.guard_atoms(ci, q.root) if p and isinstance(g, dict) and strip(g).get("k") == "Local"]
+        asg = [n for n in ci.walk() if n["k"] == "Assign" and strip(n["l"]).get("k") == "Local" and strip(n["l"])["id"] in locals_]
+        gs = [ci.canon(x, 8) + (":T" if pol else ":F") for n in asg for _, pol, x in qq.guard_atoms(ci, n) if isinstance(x, dict) and x.get("k")]
+        rep.check(any(DTR + "COPY" in g and g.endswith(":T") for g in gs) and any(DTR + "CLONE" in g and g.endswith(":F") for g in gs),
+                  "manual:Clone:when", "impl Clone is written only for a Copy type whose Clone is not derived", q.loc())
+
+    # ---- D. Default body ------------------------------------------------------------------------------------
+    q = impl_sites.get("Default")
+    if q is not None:
+        body_loc = q.interps().get("body")
+        bq = None
+        if body_loc is not None:
+            init = ci.local_init(body_loc["id"])
+            bq = [x for x in qs if init is not None and any(y is x.root for y in ci.walk(init))]
+        if rep.check(bool(bq), "default-impl:body", "the body of `fn default()` is a quote! bound to the interpolated local", q.loc()):
+            t = bq[0].tokens
+            var = t[t.index("write_bytes") + 2] if "write_bytes" in t and t.index("write_bytes") + 2 < len(t) else "?"
+            rep.check(seq_in(t, "write_bytes", "(", var, ".", "as_mut_ptr", "(", ")", ",", "0", ",", "1", ")"), "default-impl:zero-fill",
+                      "`ptr::write_bytes(%s.as_mut_ptr(), 0, 1)`: every byte of one whole object, padding included, is zeroed" % var, bq[0].loc())
+            rep.check(seq_in(t, "let", "mut", var, "=") and seq_in(t, "MaybeUninit", "::", "<", "Self", ">", "::", "uninit", "(", ")"),
+                      "default-impl:maybe-uninit", "the object is a `MaybeUninit::<Self>::uninit()` (not `mem::zeroed()`, which may leave padding undefined)",
+                      bq[0].loc())
+            rep.check(seq_in(t, var, ".", "assume_init", "(", ")", "}") and not seq_in(t, "zeroed"), "default-impl:returns-it",
+                      "the zero-filled object itself is returned", bq[0].loc())
+        rep.check(seq_in(q.tokens, "fn", "default", "(", ")", "->", "Self", "{", "#body", "}"), "default-impl:fn", "`fn default() -> Self { #body }`", q.loc())
+
+    # ---- E. PartialEq generator -----------------------------------------------------------------------------------
+    pe = rep.need(prog.fn("codegen::impl_partialeq::gen_partialeq_impl"), "gen_partialeq_impl")
+    pqs = qq.quote_sites(pe)
+    fin = [x for x in pqs if seq_in(x.tokens, "fn", "eq")]
+    if rep.check(len(fin) == 1, "partialeq:fn-eq", "one `fn eq` emission", pe.loc(pe.root)):
+        t = fin[0].tokens
+        i = t.index("#(") if "#(" in t else -1
+        vecname = t[i + 1] if i >= 0 else "?"
+        rep.check(i >= 0 and t[i + 2:i + 5] == [")", "&&", "*"] and "||" not in t, "partialeq:conjunction",
+                  "the member comparisons are joined with `&&` (%s)" % " ".join(t[i:i + 5]), fin[0].loc())
+        vec = fin[0].interps().get(vecname[1:])
+        vid = vec["id"] if vec is not None else None
+        pushes = [c for c in pe.calls(lambda x: x["k"] == "MCall" and x["name"] in ("push", "extend") and strip(x["recv"]).get("id") == vid)]
+        loops = [n for n in pe.walk() if n["k"] == "For"]
+        floops = [l for l in loops if "CompInfo::fields" in pe.canon(l["iter"], 4)]
+        bloops = [l for l in loops if "CompInfo::base_members" in pe.canon(l["iter"], 4)]
+        # bases
+        bp = [c for c in pushes if any(c is x for l in bloops for x in pe.walk(l["body"]))]
+        okb = bool(bp) and all(all("Base::requires_storage" in s for s in conds_text(pe, relative_guards(pe, c, l))) for l in bloops for c in bp
+                               if any(c is x for x in pe.walk(l["body"])))
+        rep.check(okb, "partialeq:bases", "every base member that occupies storage contributes a comparison", pe.loc(bloops[0]) if bloops else pe.loc(pe.root))
+        # fields
+        ms = [n for l in floops for n in pe.walk(l["body"]) if n["k"] == "Match" and (pe.ty(strip(n["scrut"])) or "").lstrip("&") == FIELD]
+        if rep.check(len(ms) == 1, "partialeq:fields-loop", "the loop over CompInfo::fields matches on the field kind", pe.loc(floops[0]) if floops else pe.loc(pe.root)):
+            m = ms[0]
+            have = set()
+            for a in m["arms"]:
+                vs = pat_variants(a["pat"])
+                ap = [c for c in pushes if any(c is x for x in pe.walk(a["body"]))]
+                for v in vs:
+                    have.add(v)
+                    name = short(v) if v != "_" else "_"
+                    rel = [s for c in ap for s in conds_text(pe, relative_guards(pe, c, a["body"]))]
+                    allowed = all(BITFIELD_NAMED.search(s) for s in rel) if name == "Bitfields" else not rel
+                    rep.check(bool(ap) and allowed and v != "_", "partialeq:arm:" + name,
+                              "`Field::%s` contributes a comparison for every %s (conditions: %s)" %
+                              (name, "named bit-field" if name == "Bitfields" else "member", rel or "none"), pe.loc(a["body"]))
+            for v in variants(prog, FIELD):
+                if "%s::%s" % (FIELD, v) not in have:
+                    rep.bad("partialeq:arm:" + v, "`Field::%s` is not handled by an arm of its own: such members are not compared" % v, pe.loc(m))
+        # the non-field forms compare the whole storage
+        for q in pqs:
+            if "==" in q.tokens and not seq_in(q.tokens, "fn", "eq"):
+                acc = member_accesses(pe, q)
+                l = [(x, o) for w, x, o in acc if w == "self"]
+                r = [(x, o) for w, x, o in acc if w == "other"]
+                same = bool(l) and [o or x for x, o in l] == [o or x for x, o in r]
+                named = all(o is None or "rust_ident" in o for _, x, o in acc)
+                rep.check(same and named, "partialeq:same-member:" + (l[0][0].lstrip("#") if l else "?"),
+                          "both sides of `==` name the same member (%s vs %s)" % ([x for x, _ in l], [x for x, _ in r]), q.loc())
+    gf = rep.need(prog.fn("codegen::impl_partialeq::gen_field"), "impl_partialeq::gen_field")
+    _check_kind_arms(rep, gf, "partialeq", lambda names: names & {"quote_equals", "gen_field"}, "PartialEqOrPartialOrd")
+
+    # ---- F. Debug generator ------------------------------------------------------------------------------------------
+    gd = rep.need(prog.fn("codegen::impl_debug::gen_debug_impl"), "gen_debug_impl")
+    ms = [n for n in gd.walk() if n["k"] == "Match" and (gd.ty(strip(n["scrut"])) or "").lstrip("&") == FIELD]
+    if rep.check(len(ms) == 1, "debug:fields", "gen_debug_impl matches on the field kind", gd.loc(gd.root)):
+        have = set()
+        for a in ms[0]["arms"]:
+            cs = [c for c in gd.calls(lambda x: x["k"] == "MCall" and x.get("trait", "").endswith("ImplDebug") and x["name"] == "impl_debug", a["body"])]
+            for v in pat_variants(a["pat"]):
+                have.add(v)
+                rep.check(bool(cs) and v != "_", "debug:arm:" + short(v), "`Field::%s` is formatted through ImplDebug" % short(v), gd.loc(a["body"]))
+        for v in variants(prog, FIELD):
+            if "%s::%s" % (FIELD, v) not in have:
+                rep.bad("debug:arm:" + v, "`Field::%s` has no arm: such members are missing from the output" % v, gd.loc(ms[0]))
+    fin = [x for x in qq.quote_sites(gd) if seq_in(x.tokens, "fn", "fmt")]
+    rep.check(len(fin) == 1 and seq_in(fin[0].tokens, "write", "!", "(", "f", ",", "#(", "#tokens", ")", ",", "*", ")"), "debug:write",
+              "fmt() is one `write!(f, #(#tokens),*)`: no unwrap/indexing that could panic", gd.loc(gd.root))
+    bu = rep.need(prog.impl_fn("codegen::impl_debug::ImplDebug", "ir::comp::BitfieldUnit", "impl_debug"), "<BitfieldUnit as ImplDebug>::impl_debug")
+    for q in qq.quote_sites(bu):
+        acc = member_accesses(bu, q)
+        if acc:
+            rep.check(all(o is not None and "rust_ident" in o and "Bitfield::getter_name" in o for _, x, o in acc), "debug:bitfield-getter",
+                      "a bit-field is printed through its own getter (%s)" % [(x, (o or "")[:50]) for _, x, o in acc], q.loc())
+            rel = conds_text(bu, relative_guards(bu, q.root, bu.root))
+            rep.check(all(BITFIELD_NAMED.search(s) for s in rel), "debug:bitfield-all", "every named bit-field is printed (conditions: %s)" % (rel or "none"), q.loc())
+    ib = rep.need(prog.impl_fn("codegen::impl_debug::ImplDebug", "ir::item::Item", "impl_debug"), "<Item as ImplDebug>::impl_debug")
+    _check_kind_arms(rep, ib, "debug", lambda names: names & {"debug_print", "impl_debug"}, None)
+
+
+def _check_kind_arms(rep, b, what, delegates, reach_trait):
+    """Per arm of the match over TypeKind in a per-member generator: every `self.<x>` it emits names the member that was
+    asked for (an interpolation that comes from rust_ident(name)), directly or through the local helper."""
+    prog = rep.prog
+    ms = [n for n in b.walk() if n["k"] == "Match" and (b.ty(strip(n["scrut"])) or "").lstrip("&") == TK]
+    rep.need(ms, "match over TypeKind in " + b.path)
+    m = max(ms, key=lambda n: len(n["arms"]))
+    sites = qq.quote_sites(b)
+    it = Interp(prog)
+    for a in m["arms"]:
+        kinds = sorted(short(v) for v in pat_variants(a["pat"]))
+        key = "%s:names-member:%s" % (what, "+".join(kinds) if len(kinds) <= 2 else "%s+%d" % (kinds[0], len(kinds) - 1))
+        inside = [q for q in sites if any(x is q.root for x in b.walk(a["body"]))]
+        accs = [(q, acc) for q in inside for acc in member_accesses(b, q)]
+        bad = [(q, x, o) for q, (w, x, o) in accs if o is None or "rust_ident" not in o]
+        if bad and reach_trait == "PartialEqOrPartialOrd" and kinds == ["Vector"]:
+            cv = prog.fn(DT + "::can_derive_vector")
+            if cv is not None and result_name(it, cv, [_dt(reach_trait)]) == "No":
+                rep.ok(key, "unreachable: a vector member makes the container `No` for %s, so no manual impl is written" % reach_trait, b.loc(a["body"]))
+                continue
+        if bad:
+            q, x, o = bad[0]
+            rep.bad(key, "the tokens emitted for a %s member access `self.%s` (%s) instead of the member that was asked for" %
+                    ("/".join(kinds), x, (o or "a literal")[:70]), q.loc())
+            continue
+        names = {short(callee_of(c)) for c in b.calls(None, a["body"]) if not b.macro_name(c)}
+        how = "accesses self.<name>" if accs else ("delegates to %s" % sorted(delegates(names)) if delegates(names) else "emits no member access")
+        rep.ok(key, "%s member: %s" % ("/".join(kinds), how), b.loc(a["body"]))
+    # the local helper (debug_print / quote_equals) must itself access `self.#<its parameter>`
+    for p, hb in prog.bodies.items():
+        if p.startswith(b.path + "::") and hb.kind == "Fn":
+            for q in qq.quote_sites(hb):
+                for w, x, o in member_accesses(hb, q):
+                    rep.check(o is not None and o.startswith("param:"), "%s:helper:%s:%s" % (what, short(p), w),
+                              "%s accesses `%s.%s` = its parameter" % (short(p), w, x), q.loc())
+
+
+# =====================================================================================================
+#  R8.6  helper types that bindgen emits implement every trait the tables promise for what they stand for
+# =====================================================================================================
+EXPAND = {"Copy": ["Copy", "Clone"], "Debug": ["Debug"], "Default": ["Default"], "Hash": ["Hash"],
+          "PartialEqOrPartialOrd": ["PartialEq", "PartialOrd"]}
+
+
+def helper_definition(prog, name):
+    """-> (body, loc, set of traits the emitted helper type `name` implements) or None.
+    The helper is found by its `struct <name>` tokens in a quote! of crate `codegen` (or `struct #ident` next to a string
+    literal `<name>` for computed names, or the text included with include_str!)."""
+    for p, b in prog.bodies.items():
+        if not p.startswith("codegen::"):
+            continue
+        lits = [n["v"] for n in b.walk() if n["k"] == "Lit" and isinstance(n.get("v"), str) and name in n["v"]]
+        if not lits:
+            continue
+        for v in lits:
+            m = re.search(r"#\[derive\(([^)]*)\)\]\s*(?:#\[[^\]]*\]\s*)*pub\s+struct\s+" + re.escape(name) + r"\b", v)
+            if m:
+                return b, b.loc(b.root), {x.strip() for x in m.group(1).split(",") if x.strip()}
+        qs = qq.quote_sites(b)
+        decl = None
+        for q in qs:
+            t = q.tokens
+            for i, tok in enumerate(t[:-1]):
+                if tok == "struct" and (t[i + 1] == name or t[i + 1].startswith("#")):
+                    decl = (q, t[i + 1])
+        if decl is None:
+            continue
+        q0, ident = decl
+        traits = set()
+        for q in qs:
+            t = q.tokens
+            for i, tok in enumerate(t):
+                if tok == "derive" and i + 1 < len(t) and t[i + 1] == "(" and q is q0:
+                    j = i + 2
+                    while j < len(t) and t[j] != ")":
+                        if t[j] != ",":
+                            traits.add(t[j])
+                        j += 1
+                if tok == "for" and 0 < i < len(t) - 1 and t[i + 1] in (name, ident) and "impl" in t[:i]:
+                    traits.add(t[i - 1])
+        return b, q0.loc(), traits
+    return None
+
+
+@RULES.rule("R8.6", "bindgen's own helper types implement every trait the tables promise for the constituent they replace", floor=41)
+def r8_6(rep):
+    """The analysis answers Yes for a constituent on the assumption that the Rust type emitted for it implements the trait.
+    For constituents that bindgen replaces by a helper type of its own (`__BindgenComplex<T>` for `_Complex`, `__BindgenFloat16`,
+    `__BindgenOpaqueArray*` for opaque blobs, `__BindgenUnionField<T>` for unions that are not Rust unions,
+    `__IncompleteArrayField<T>`, `__BindgenBitfieldUnit`) the helper's derive list / impls must therefore contain every trait
+    for which the extracted table says Yes.  Breaks: removing `Hash` from `__BindgenOpaqueArray`'s derive list makes
+    `--with-derive-hash --opaque-type T` emit `#[derive(Hash)]` on a struct whose only field does not implement Hash."""
+    prog = rep.prog
+    it = Interp(prog)
+    simple = dt_method(rep, "can_derive_simple")
+    inc = dt_method(rep, "can_derive_incomplete_array")
+    for name, ent in sorted(ORACLE["helper_types"].items()):
+        if name == "_what":
+            continue
+        d = helper_definition(prog, name)
+        if d is None:
+            rep.bad("helper:%s" % name, "the definition of helper type %s was not found in crate codegen" % name)
+            continue
+        b, loc, have = d
+        sf = ent["stands_for"]
+        if sf.startswith("simple:"):
+            kind = sf.split(":")[1]
+            yes = [t for t in TRAITS if result_name(it, simple, [_dt(t), V("%s::%s" % (TK, kind), None)]) == "Yes"]
+            why = "can_derive_simple(_, %s) answers Yes" % kind
+        elif sf == "incomplete_array":
+            yes = [t for t in TRAITS if result_name(it, inc, [_dt(t)]) == "true"]
+            why = "can_derive_incomplete_array answers true"
+        else:
+            yes = list(TRAITS)
+            why = {"opaque": "an opaque item answers Yes for every trait (R8.5 opaque:all-traits)",
+                   "union-without-rust-union": "a union that is not emitted as a Rust union answers Yes for every trait but Copy, and Copy is joined over its fields",
+                   "bitfield-unit": "a bit-field unit is a member of its struct for every trait"}.get(sf, sf)
+        need = [x for t in yes for x in EXPAND[t]]
+        if "PartialEqOrPartialOrd" in yes and not ent["has_float"]:
+            need += ["Eq", "Ord"]
+        for tr in need:
+            rep.check(tr in have, "helper:%s:%s" % (name, tr),
+                      "%s %s %s (it has %s); needed because %s%s" % (name, "implements" if tr in have else "does NOT implement", tr, sorted(have), why,
+                                                                     "" if tr not in ("Eq", "Ord") else " and it holds no float"), loc)
+
+
+# =====================================================================================================
+#  R8.7  per-item exclusions applied by derives_of_item are also known to the analysis
+# =====================================================================================================
+@RULES.rule("R8.7", "every per-item reason to withhold a derive is also seen by the CannotDerive analysis (it must reach containers)", floor=3)
+def r8_7(rep):
+    """`derives_of_item` may withhold a trait from an item for reasons of its own (`<div rustbindgen nocopy>` ..).  A type
+    that *contains* such an item still derives the trait unless the fix-point analysis knows the same reason — and then
+    the output does not compile (`#[derive(Copy)]` on a struct with a non-Copy member, E0204).  So every condition that
+    guards a DerivableTraits bit besides the CanDerive* answer and `packed` must be consulted on the analysis side
+    (CannotDerive::constrain_type / DeriveTrait::not_by_name, two call levels)."""
+    prog = rep.prog
+    doi = rep.need(prog.fn("codegen::derives_of_item"), "codegen::derives_of_item")
+    roots = cannot_derive_bodies(prog) + [b for p, b in prog.bodies.items() if p.startswith(DT + "::")]
+    rep.need(roots, "CannotDerive methods")
+    seen_callees, seen_fields = set(), set()
+    frontier = list(roots)
+    for depth in range(3):
+        nxt = []
+        for b in frontier:
+            for n in b.nodes:
+                if n["k"] in ("Call", "MCall"):
+                    for c in {n.get("resolved"), n.get("callee")} - {None}:
+                        if c not in seen_callees:
+                            seen_callees.add(c)
+                            if c in prog.bodies:
+                                nxt.append(prog.bodies[c])
+                elif n["k"] == "Field" and "adt" in n:
+                    seen_fields.add((n["adt"], n["f"]))
+        frontier = nxt
+    getters = prog.getters()
+    packed_param = doi.params[2]["name"] if len(doi.params) > 2 and doi.params[2].get("k") == "Bind" else "packed"
+    done = set()
+    for flag, n in flag_sites(doi):
+        for a, pol, x in qq.guard_atoms(doi, n):
+            if not isinstance(x, dict) or "CanDerive" in a and "can_derive_" in a or a == "param:" + packed_param:
+                continue
+            e = strip(x)
+            name = callee_of(e) if e.get("k") in ("Call", "MCall") else ("%s::%s" % (e.get("adt"), e.get("f")) if e.get("k") == "Field" else a[:60])
+            if name in done:
+                continue
+            done.add(name)
+            vis = name in seen_callees or getters.get(name) in seen_fields or (e.get("k") == "Field" and (e.get("adt"), e.get("f")) in seen_fields)
+            rep.check(vis, "exclusion-seen-by-analysis:" + short(name),
+                      "DerivableTraits::%s is withheld from an item when %s%s, %s" %
+                      (flag, "not " if pol else "", short(name), "and the CannotDerive analysis consults it too" if vis else
+                       "but the CannotDerive analysis never looks at it: a struct that contains such an item still derives the trait"), doi.loc(n))
